@@ -268,6 +268,9 @@ def check_C03(world, hist, pred):
         if rec.get("cleanup_failed"):
             cleanup_failed.add(cid)
     dead = pred.dead
+    interrupted_only = bool(pred.notes.get("hook_interrupt")) and not pred.notes.get("container_skipped_midrun") and \
+        not any(e["kind"] == "cleanup" and e.get("raised") for e in hist["events"]) and \
+        not any(e["kind"] == "hook" and e.get("raised") and e["raised"] != "KeyboardInterrupt" for e in hist["events"])
 
     def visit(node):
         """Returns True when the element (transitively) holds a childless element:
@@ -304,6 +307,8 @@ def check_C03(world, hist, pred):
             if node["status"] == "passed" and not all(
                     s in PASSED_LIKE or s == "skipped" for s in children):
                 pass
+            elif interrupted_only and kind in ("feature", "rule"):
+                pass        # (an interrupt inside a hook, no cleanup raised: the table applies to containers)
             else:
                 return
         if dead and kind == "outline" and node["status"] == "skipped" and \
